@@ -344,7 +344,17 @@ func TestC08(t *testing.T) {
 		case 0: // plain / grease hello, mutated
 			var echBody []byte
 			if rapid.Bool().Draw(t, "grease") {
-				echBody = hello.ECHOuterExt(1, uint16(rapid.IntRange(1, 3).Draw(t, "ga")), key.ID, key.Priv.PublicKey().Bytes(), hello.GenBytes(t, "gp", rapid.IntRange(0, 200).Draw(t, "gpl")))
+				kdf := uint16(rapid.SampledFrom([]int{1, 1, 1, 2, 3, 0xffff}).Draw(t, "gkdf"))
+				echBody = hello.ECHOuterExt(kdf, uint16(rapid.IntRange(1, 3).Draw(t, "ga")), key.ID, key.Priv.PublicKey().Bytes(), hello.GenBytes(t, "gp", rapid.IntRange(0, 200).Draw(t, "gpl")))
+				if kdf != 1 {
+					// the operator's config also lists suites with a KDF this library does not
+					// implement (HKDF-SHA384/512 are registered HPKE KDFs), and the client picks one
+					k2 := *key
+					k2.Suites = append(append([]hello.Suite{}, key.Suites...), hello.Suite{KDF: kdf, AEAD: 1}, hello.Suite{KDF: kdf, AEAD: 2}, hello.Suite{KDF: kdf, AEAD: 3})
+					k2.Config = hello.ConfigBytes(k2.ID, 0x0020, k2.Priv.PublicKey().Bytes(), k2.Suites, 64, []byte(k2.PublicName))
+					key = &k2
+					cl = append(cl, "client_picks_unimplemented_kdf")
+				}
 			}
 			h := hello.GenPlain(t, "h", hello.PlainOpts{ECH: echBody, ForceSNI: key.PublicName})
 			var msg []byte
